@@ -116,8 +116,33 @@ def build(ch, with_options=True):
         # the moved cell 11 may reach into the box of cell 10: cut it out
         c10.expr = ('*', c10.expr, ('^', 11))
     d.add_cell(c10); d.add_cell(c11)
-    # the rest of level 0: complement of both (cell 11 may be moved by its TRCL)
-    d.add_cell(HCell(19, ('*', ('^', 10), ('^', 11)), imp=imp19))
+    # optionally a third container that is a copy of cell 10 moved by its own TRCL, written as LIKE 10 BUT ...
+    # or explicitly; the BUT list may replace the FILL (dropping an inherited fill transformation) and the
+    # importance
+    copy12 = ch.choose('copy12', ['none', 'like', 'explicit'])
+    d.like12 = None
+    if copy12 != 'none':
+        c12 = HCell(12, c10.expr, mat=c10.mat, rho=c10.rho, imp=c10.imp, fill=c10.fill, filltr=c10.filltr)
+        c12.trcl = Tr(refsem.Motion((0.0, 9.5, 0.0)), 'inline3')
+        but = ['trcl=(0 9.5 0)']
+        f12 = ch.choose('fill12', ['inherit', 'fill=1', 'fill=1-tr']) if fill10 else 'inherit'
+        if f12 == 'fill=1':
+            c12.fill, c12.filltr = 1, None
+            but.append('fill=1')
+        elif f12 == 'fill=1-tr':
+            c12.fill, c12.filltr = 1, make_tr(d, 't2', 'inline', 2)
+            but.append('fill=1 (%s)' % c12.filltr.paren()[0])
+        i12 = ch.choose('imp12', ['inherit', 0, 1])
+        if i12 != 'inherit':
+            c12.imp = i12
+            but.append('imp:n=%d' % i12)
+        d.add_cell(c12)
+        if copy12 == 'like':
+            d.like12 = '12 like 10 but ' + ' '.join(but)
+        d.add_cell(HCell(19, ('*', ('*', ('^', 10), ('^', 11)), ('^', 12)), imp=imp19))
+    else:
+        # the rest of level 0: complement of both (cell 11 may be moved by its TRCL)
+        d.add_cell(HCell(19, ('*', ('^', 10), ('^', 11)), imp=imp19))
     # universe 1
     if ncell == 2:
         u1 = [HCell(31, s21m, mat=1, rho='-2.7', u=1), HCell(32, s21p, mat=2, rho='-1.0', u=1)]
@@ -150,7 +175,7 @@ def build(ch, with_options=True):
         # surface numbers that look like implicit surfaces 1000*cell+surf of the TRCL cell 11, a universe and a
         # TR card numbered like cells, sparse cell numbers with the importance-0-capable cell far above the rest
         d.smap = {n: 11000 + n for n in list(d.surfcards) if isinstance(n, int)}
-        d.cmap = {10: 10, 11: 11, 19: 99999, 31: 7, 32: 2001, 33: 33, 41: 1041, 42: 5, 51: 3, 52: 12}
+        d.cmap = {10: 10, 11: 11, 12: 412, 19: 99999, 31: 7, 32: 2001, 33: 33, 41: 1041, 42: 5, 51: 3, 52: 12}
         d.umap = {1: 31, 2: 10, 3: 3}
         d.tmap = {7: 31, 8: 11, 9: 10, 6: 999, 5: 5, 4: 4, 3: 1}
     kwo = ch.choose('keyword-order', [None, ['imp', 'trcl', 'fill', 'u'], ['fill', 'imp', 'u', 'trcl'],
@@ -160,7 +185,14 @@ def build(ch, with_options=True):
     d.options = list(opts)
     # cell 11 moved by a TRCL may overlap cell 10: the deck is then ill-formed; reject
     d.trcl11 = trcl11
-    return d.finish()
+    d.finish()
+    if d.like12:
+        # cell numbers of the LIKE card follow the rendering maps
+        n12, n10 = d.cmap.get(12, 12), d.cmap.get(10, 10)
+        txt = d.like12.replace('12 like 10 but', '%d like %d but' % (n12, n10))
+        txt = txt.replace('fill=1', 'fill=%d' % d.umap.get(1, 1))
+        d.cells = [txt if c.split()[0] == str(n12) else c for c in d.cells]
+    return d
 
 
 def ref_planes(d):
